@@ -59,7 +59,7 @@ def leaf_type(mesh_spec, nvdim, cplx):
     dims = mesh_spec["dims"] or (["x", "y", "z"][:nd] if nd <= 3 else [f"x{i}" for i in range(nd)])
     edges = [Fraction(b) - Fraction(a) for a, b in zip(mesh_spec["p1"], mesh_spec["p2"])]
     return dict(n=list(mesh_spec["n"]), dims=list(dims), nvdim=nvdim, cplx=cplx, vd=nvdim >= 2,
-                mp=defmap(dims, nvdim), grp="L", edges=[Q(e) for e in edges])
+                mp=defmap(dims, nvdim), grp="L", edges=[Q(e) for e in edges], exact=True)
 
 
 def with_(t, **kw):
@@ -373,7 +373,7 @@ BINF = {
              and real_(tys[0]) and real_(tys[1]), lambda tys, a=None: with_(tys[0], mp=defmap(tys[0]["dims"], 3))),
     "angle": (lambda f, g: f.angle(g), lambda tys: same_mesh(*tys) and tys[0]["nvdim"] == tys[1]["nvdim"] and real_(tys[0]) and real_(tys[1]),
               lambda tys, a=None: scalar(tys[0])),
-    "lshift": (lambda f, g: f << g, lambda tys: same_mesh(*tys) and tys[0]["grp"] != "VTK" and real_(tys[0]) and real_(tys[1]),
+    "lshift": (lambda f, g: f << g, lambda tys: same_mesh(*tys) and real_(tys[0]) and real_(tys[1]),
                lambda tys, a=None: _lshift_type(tys[0], tys[1]["nvdim"])),
 }
 
@@ -405,7 +405,7 @@ class _SelPlane(Base):
         if len(t["n"]) < 2:
             return None
         ax = rng.randrange(len(t["n"]))
-        if rng.random() < 0.3:
+        if t["exact"] and rng.random() < 0.3:
             return dict(ax=ax, k=t["n"][ax] // 2, centre=True)
         return dict(ax=ax, k=rng.randrange(t["n"][ax]), centre=False)
 
@@ -466,7 +466,7 @@ class _Crop(Base):
             a = rng.randrange(n)
             lo.append(a)
             hi.append(rng.randint(a + 1, n))
-        return dict(lo=lo, hi=hi)
+        return dict(lo=lo, hi=hi, inset=(not t["exact"]) or rng.random() < 0.3)
 
     @staticmethod
     def rtype(tys, a):
@@ -480,8 +480,9 @@ class _Crop(Base):
         f = fs[0]
         pmin = [Fraction(float(x)) for x in f.mesh.region.pmin]
         cell = [Fraction(float(x)) for x in f.mesh.cell]
-        p1 = [float(p + l * c) for p, l, c in zip(pmin, a["lo"], cell)]
-        p2 = [float(p + h * c) for p, h, c in zip(pmin, a["hi"], cell)]
+        q = Fraction(1, 4) if a["inset"] else 0  # a box a quarter cell inside the block selects the same cells
+        p1 = [float(p + (l + q) * c) for p, l, c in zip(pmin, a["lo"], cell)]
+        p2 = [float(p + (h - q) * c) for p, h, c in zip(pmin, a["hi"], cell)]
         return f[df.Region(p1=p1, p2=p2, dims=f.mesh.region.dims, units=f.mesh.region.units)]
 
     node = staticmethod(lambda cs, a, o: dict(t="map", op=dict(k="crop", lo=a["lo"], hi=a["hi"]), p=cs[0]))
@@ -537,13 +538,14 @@ class _Resample(Base):
         t = tys[0]
         n2 = []
         for n, e in zip(t["n"], t["edges"]):
-            cand = [m for m in range(1, 9) if tie_free(n, m) or dyadic_small(F(e) / m)]
+            cand = [m for m in range(1, 9) if tie_free(n, m) or (t["exact"] and dyadic_small(F(e) / m))]
             n2.append(rng.choice(cand))
         if int(np.prod(n2)) > 300:
             return None
         return dict(n=n2)
 
-    rtype = staticmethod(lambda tys, a: with_(tys[0], n=list(a["n"]), grp=tys[0]["grp"] + f"|rs{a['n']}"))
+    rtype = staticmethod(lambda tys, a: with_(tys[0], n=list(a["n"]), grp=tys[0]["grp"] + f"|rs{a['n']}",
+                                              exact=tys[0]["exact"] and all(dyadic_small(F(e) / m) for e, m in zip(tys[0]["edges"], a["n"]))))
     run = staticmethod(lambda fs, a: fs[0].resample(tuple(a["n"])))
     node = staticmethod(lambda cs, a, o: dict(t="map", op=dict(k="resample", n=a["n"]), p=cs[0]))
 
@@ -628,7 +630,8 @@ class _Vtk(Base):
             return None
         return dict(rep=rng.choice(["bin", "txt", "xml"]))
 
-    rtype = staticmethod(lambda tys, a: with_(tys[0], dims=["x", "y", "z"], mp=defmap(["x", "y", "z"], tys[0]["nvdim"]), grp="VTK"))
+    rtype = staticmethod(lambda tys, a: with_(tys[0], dims=["x", "y", "z"], mp=defmap(["x", "y", "z"], tys[0]["nvdim"]),
+                                              grp="VTK(" + tys[0]["grp"] + "," + a["rep"] + ")", exact=False))
     run = staticmethod(lambda fs, a: file_roundtrip(fs[0], "vtk", a["rep"]))
     node = staticmethod(lambda cs, a, o: dict(t="vtk", p=cs[0]))
 
@@ -662,8 +665,7 @@ def _red_type(t, a):
 
 _mk_free("mean_dir", lambda f, d: f.mean(direction=d), lambda t: len(t["n"]) >= 2, _red_type)
 _mk_free("integrate_dir", lambda f, d: f.integrate(direction=d), lambda t: len(t["n"]) >= 2 and real_(t), _red_type)
-_mk_free("integrate_cum", lambda f, d: f.integrate(direction=d, cumulative=True), real_,
-         lambda t, a: with_(t, mp=defmap(t["dims"], t["nvdim"])))
+_mk_free("integrate_cum", lambda f, d: f.integrate(direction=d, cumulative=True), real_, lambda t, a: dict(t))
 _FINAL_ONLY = {"fftn": lambda f, d: f.fftn(), "rfftn": lambda f, d: f.rfftn(), "fft_roundtrip": lambda f, d: f.fftn().ifftn()}
 for _n, _f in _FINAL_ONLY.items():
     _mk_free(_n, _f, real_, lambda t, a: with_(t, cplx=True, grp="K"))
@@ -677,7 +679,8 @@ SETV_KINDS = ["none", "const", "arr_bool", "arr_int", "arr_float", "arr_col", "f
 class _Setv(Base):
     @staticmethod
     def gen(tys, rng):
-        return dict(spec=rng.choice(SETV_KINDS), seed=rng.getrandbits(32), ctor=rng.random() < 0.4)
+        kinds = [k for k in SETV_KINDS if not (k == "norm" and tys[0]["cplx"]) and not (k == "func_affine" and not tys[0]["exact"])]
+        return dict(spec=rng.choice(kinds), seed=rng.getrandbits(32), ctor=rng.random() < 0.4)
 
     run = None
     node = None
@@ -924,9 +927,11 @@ def make_spec(kind, f, rng):
             exp[idx] = sum((p + (i + Fraction(1, 2)) * h - c0) ** 2 for p, i, h, c0 in zip(pmin, idx, cell, ctr)) <= r2
         return fn, dict(kind="func", fun=dict(kind="ball", centre=Qs(ctr), r2=Q(r2)), pmin=Qs(pmin), cell=Qs(cell)), exp, False
     if kind == "norm":
-        vals = np.asarray(f.array).reshape(size, f.nvdim)
-        spec = dict(kind="norm", shape=list(n), vals=[Qs(row) for row in vals.real.tolist()])
-        sq = [sum(Fraction(float(x)) ** 2 for x in row) for row in vals.real.tolist()]
+        vals = np.asarray(f.array).real.reshape(size, f.nvdim).copy()
+        # NaN / inf lengths are "not close to 0": stand-in value 1 for the rational model
+        vals[~np.isfinite(vals).all(axis=1)] = 1.0
+        spec = dict(kind="norm", shape=list(n), vals=[Qs(row) for row in vals.tolist()])
+        sq = [sum(Fraction(float(x)) ** 2 for x in row) for row in vals.tolist()]
         thr = Fraction(1, 10 ** 16)
         exp = np.array([s > thr for s in sq]).reshape(n)
         return "norm", spec, exp, False
@@ -941,16 +946,13 @@ def make_spec(kind, f, rng):
         return a, arr_spec(a), None, True
     if kind == "bad_rev":
         shp = tuple(reversed(n)) if tuple(reversed(n)) != n else (*n, 3)
-        a = np.ones(shp)
-        ok = (shp[-1] == 1 and np.broadcast_shapes(shp, (*n, 1)) == (*n, 1)) if shp[-1] == 1 else False
-        try:
-            if shp[-1] == 1:
-                np.broadcast_to(a, (*n, 1))
-                ok = True
-        except ValueError:
-            ok = False
-        if ok:
-            return a, arr_spec(a), np.ones(n, bool), False
+        a = np.array([rng.choice([0.0, 1.0]) for _ in range(int(np.prod(shp)))]).reshape(shp)
+        if shp[-1] == 1:
+            try:
+                exp = np.broadcast_to(a, (*n, 1))[..., 0] != 0
+                return a, arr_spec(a), exp.copy(), False
+            except ValueError:
+                pass
         return a, arr_spec(a), None, True
     if kind == "bad_empty":
         return [], dict(kind="arr", shape=[0], data=[]), None, True
@@ -964,9 +966,10 @@ def make_spec(kind, f, rng):
 def norm_band(f):
     """cells whose squared length is too close to the 1e-16 threshold to demand either outcome"""
     n = tuple(int(k) for k in f.mesh.n)
-    vals = np.asarray(f.array).reshape(-1, f.nvdim).real.tolist()
+    vals = np.asarray(f.array).real.reshape(-1, f.nvdim).copy()
+    vals[~np.isfinite(vals).all(axis=1)] = 1.0
     thr = Fraction(1, 10 ** 16)
-    return np.array([abs(sum(Fraction(float(x)) ** 2 for x in row) - thr) <= thr / 2 ** 30 for row in vals]).reshape(n)
+    return np.array([abs(sum(Fraction(float(x)) ** 2 for x in row) - thr) <= thr / 2 ** 30 for row in vals.tolist()]).reshape(n)
 
 
 def check_result(tag, res, live, snaps, fail, expect_alias=False):
@@ -990,6 +993,7 @@ def check_result(tag, res, live, snaps, fail, expect_alias=False):
 
 
 def write_probe(tag, res, live, snaps, rng, fail):
+    """flip one entry of result.valid, re-read every OTHER live value (`live` excludes the result's own slot)"""
     v = res.valid
     if v.size == 0 or not v.flags.writeable:
         return
@@ -997,7 +1001,7 @@ def write_probe(tag, res, live, snaps, rng, fail):
     old = bool(v[idx])
     v[idx] = not old
     try:
-        hit = [i for i, g in enumerate(live) if g is not res and mask_bytes(g) != snaps[i]]
+        hit = [i for i, g in enumerate(live) if mask_bytes(g) != snaps[i]]
         if hit:
             fail(f"[{tag}] write-through: flipping result.valid{list(idx)} changed the validity of value(s) {hit}")
     finally:
@@ -1029,7 +1033,7 @@ def run_prog(case):
             if name == "setv":
                 srng = random.Random(args["seed"])
                 src = ins[0]
-                pyval, mspec, exp, _ = make_spec(args["spec"] if args["spec"] != "arr_col" else "arr_col", src, srng)
+                pyval, mspec, exp, _ = make_spec(args["spec"], src, srng)
                 spec_info = (pyval, mspec, exp)
                 if args["ctor"]:
                     res = df.Field(src.mesh, nvdim=src.nvdim, value=src.array, vdims=src.vdims, unit=src.unit,
@@ -1050,10 +1054,8 @@ def run_prog(case):
             fail(f"[{tag}] raised {type(e).__name__}: {str(e)[:160]}")
             so["raised"] = type(e).__name__
             break
-        shared = check_result(tag, res, vals, snaps, fail) if cls.kind != "alias" else None
-        if cls.kind == "alias":
-            # unary plus: the property wants an own validity; the code returns the operand (D7)
-            shared = check_result("pos", res, vals, snaps, fail)
+        # (unary plus: the property wants an own validity; the code returns the operand — D7, tag "pos")
+        shared = check_result(tag, res, vals, snaps, fail)
         if not isinstance(res, df.Field):
             break
         for g, b in zip(ins, data_before):
@@ -1101,13 +1103,8 @@ def run_prog(case):
                 if not np.array_equal(keep, res.valid):
                     fail(f"[{tag}] changing the assigned array afterwards changed the field's validity")
             so["mspec"] = mspec
+        write_probe(tag, res, vals, snaps, rng, fail)
         vals.append(res)
-        snaps.append(mask_bytes(res))
-        if cls.kind != "alias":
-            write_probe(tag, res, vals, snaps, rng, fail)
-        else:
-            # probe as well: reports the D7 consequence under the [pos] tag
-            write_probe("pos", res, vals[:-1], snaps[:-1], rng, fail)
         so.update(ok=True, shape=[int(k) for k in res.valid.shape], mask=res.valid.reshape(-1).astype(bool).tolist(),
                   shared=shared or [], same_obj=[i for i, g in enumerate(vals[:-1]) if g is res])
     return obs
